@@ -357,6 +357,13 @@ def is_walk(rows, v, s):
     return True
 
 
+def end_vertex(rows, v, s):
+    """the vertex a walk ends in (the string is a walk)"""
+    for c in s:
+        v = rows[v][NUC.index(c)]
+    return v
+
+
 def random_walk(rng, rows, v, length):
     out = ""
     for _ in range(length):
